@@ -52,6 +52,7 @@ func runC14(rc *RC) {
 	}
 	w := ingest.NewMutableOverlayWorld(bw)
 	name := "C14/MutableOverlayWorld over " + baseKindNames[bk]
+	rc.Phase(name)
 	ids := universe()
 	steps := rc.Range(2, 36)
 	mix := opMix{invalidPct: 10, richTypes: true, geometryPct: 45}
@@ -129,7 +130,7 @@ func runC14(rc *RC) {
 			return
 		}
 	}
-	rc.Rec.Nontrivial = len(held) > 0 && editsAfterSnapshot >= 2
+	rc.SetNontrivial(len(held) > 0 && editsAfterSnapshot >= 2)
 	if len(held) >= 2 {
 		rc.Probe("snapshot-nested>=2")
 	}
@@ -146,6 +147,7 @@ func c14TagsOverlay(rc *RC) {
 	}
 	w := ingest.NewMutableTagsOverlayWorld(bw)
 	name := "C14/MutableTagsOverlayWorld"
+	rc.Phase(name)
 	ids := universe()
 	steps := rc.Range(2, 30)
 	var held []*heldSnapshot
@@ -199,7 +201,7 @@ func c14TagsOverlay(rc *RC) {
 			return
 		}
 	}
-	rc.Rec.Nontrivial = len(held) > 0 && edits >= 2
+	rc.SetNontrivial(len(held) > 0 && edits >= 2)
 	if len(held) >= 2 {
 		rc.Probe("snapshot-nested>=2")
 	}
